@@ -749,7 +749,8 @@ class Engine:
         for gname in ghost_vars:
             gt = inv.get('ghost_types', {}).get(gname)
             env.locals['__g_' + gname] = self.havoc_like(env.locals['__g_' + gname], gt, gname)
-        for hx in inv.get('havoc_heap', []):
+        heap_targets = _heap_targets(inv, st, env)
+        for hx in heap_targets:
             self.havoc_heap(self.eval_spec(hx, env, self.ghost_env(env)))
         shaped = {}
         for hx, nshape in inv.get('elem_tuple', {}).items():
@@ -785,7 +786,7 @@ class Engine:
             # values at the head of the arbitrary iteration, for use by the per-iteration obligations
             env.locals['__g_' + gname] = self.eval_spec(gexpr, env, self.ghost_env(env))
         declared = set()
-        for hx in inv.get('havoc_heap', []):
+        for hx in heap_targets:
             r = self.eval_spec(hx, env, self.ghost_env(env))
             if isinstance(r, VRef):
                 declared.add(r.addr)
@@ -1821,6 +1822,32 @@ def VO_term(term, name):
     v.name = name
     v.proto = None
     return v
+
+
+_MUTATORS = {'append', 'extend', 'insert', 'pop', 'remove', 'update', 'clear', 'sort', 'reverse', 'setdefault', 'popitem'}
+
+
+def _heap_targets(inv, st, env):
+    """the heap objects a cut loop havocs: the sidecar's ``havoc_heap`` entries.  An entry that is a bare local name which
+    no longer exists (the local was renamed in the source) is replaced by the locals the loop body visibly mutates
+    (``x[...] = ..``, ``del x[...]``, ``x.append(..)`` ...), so a renamed temporary does not make the proof undecided;
+    the loop heap-write guard still rejects any write to an object that is not havoced."""
+    out, missing = [], False
+    for hx in inv.get('havoc_heap', []):
+        if hx.isidentifier() and hx not in env.locals:
+            missing = True
+        else:
+            out.append(hx)
+    if missing:
+        for n in ast.walk(ast.Module(body=list(st.body), type_ignores=[])):
+            nm = None
+            if isinstance(n, ast.Subscript) and isinstance(n.ctx, (ast.Store, ast.Del)) and isinstance(n.value, ast.Name):
+                nm = n.value.id
+            elif isinstance(n, ast.Call) and isinstance(n.func, ast.Attribute) and n.func.attr in _MUTATORS and isinstance(n.func.value, ast.Name):
+                nm = n.func.value.id
+            if nm and nm in env.locals and isinstance(env.locals[nm], VRef) and nm not in out:
+                out.append(nm)
+    return out
 
 
 def _loop_header(st):
